@@ -163,7 +163,7 @@ section Operators
 open Pydap.SeqClient
 
 /-- the three backends serve the reference (the theorems above, one statement) -/
-theorem serve_ref (cmp : Op → A → A → Bool) (enc : A → List Char) (lit : List Char → Option A)
+theorem C04_serve_any_backend (cmp : Op → A → A → Bool) (enc : A → List Char) (lit : List Char → Option A)
     (henc : ∀ v, lit (enc v) = some v) (id : Name) (hhead : ∀ v, rsplitHead (enc v) ≠ id)
     (names : List Name) (hnd : names.Nodup) (hid : id ∉ names) (hne : [] ∉ names)
     (rows : List (List A)) (hrows : ∀ r ∈ rows, r.length = names.length) (bk : Backend)
@@ -180,12 +180,6 @@ theorem serve_ref (cmp : Op → A → A → Bool) (enc : A → List Char) (lit :
     exact C04_serve_lazy_full cmp enc lit henc id hhead names hnd hid hne rows hrows false q rcs hcl hcols
   | csv =>
     exact C04_serve_lazy_full cmp enc lit henc id hhead names hnd hid hne rows hrows true q rcs hcl hcols
-
-/-- the constraint of the URL given to `open_url` is one the theorem speaks about: its selection tokens
-    read as the clauses `rcs0` of the sequence, its columns (if any) are distinct columns of the sequence -/
-def UrlOk (lit : List Char → Option A) (id : Name) (names : List Name) (u : UrlCE) (rcs0 : List (RCond A)) : Prop :=
-  SelOk lit id names u.sel rcs0 ∧
-    ∀ cols r, u.proj = some (some cols, r) → cols ≠ [] ∧ cols.Nodup ∧ ∀ k ∈ cols, k ∈ names
 
 /-- **Constraint built with the client's lazy sequence operators = constraint written in the URL = the
     reference.**  A dataset is opened with `open_url(url)` or `open_url(url?ce)` (`u`: the projection
@@ -276,10 +270,44 @@ theorem C04_operators (cmp : Op → A → A → Bool) (enc : A → List Char) (l
       cases hsub : a.sub with
       | false => simpa [hsub] using hk
       | true => rw [hsub] at hk; exact hkeys k ((hvis hsub).2.2 k (by simpa using hk))
-    rw [serve_ref cmp enc lit henc id hhead names hnd hid hne rows hrows bk _ _ hres hcols]
+    rw [C04_serve_any_backend cmp enc lit henc id hhead names hnd hid hne rows hrows bk _ _ hres hcols]
     simp only
     rw [refEval_wire cmp names _ _ a.sl rows hlen]
     cases hsub : a.sub <;> rfl
+
+open Pydap.TableVal in
+/-- **The same on the value domain of the property** (`encVal` = `pydap.lib.encode`, `litVal` =
+    `ast.literal_eval`, character level): the conditions on encoded values are lemmas, except that a string
+    written into a filter has no `&` (part of `OpOk`; such a string would cut the URL). -/
+theorem C04_operators_val (id : Name) (hidc : ∃ c r, id = c :: r ∧ c.isAlpha = true)
+    (names : List Name) (hnd : names.Nodup) (hnn : names ≠ []) (hid : id ∉ names)
+    (hidok : NameOk id) (hnames : ∀ k ∈ names, NameOk k)
+    (rows : List (List Val)) (hrows : ∀ r ∈ rows, r.length = names.length)
+    (hlen : (rows.length : Int) ≤ MAXSIZE) (bk : Backend)
+    (u : UrlCE) (rcs0 : List (RCond Val)) (hu : UrlOk litVal id names u rcs0)
+    (h : Proxy.Heap) (w : Proxy.WF h) (r : Nat) (base : Name) (σ : Proxy.Sess) (tm : Nat)
+    (hs : Proxy.specAt h r = some (Proxy.specOf (openTmpl id names u) (openProxy base σ tm u)))
+    (l : List (List Proxy.Ev × COp Val))
+    (hops : ∀ x ∈ l, OpOk encVal (openTmpl id names u).keys x.2)
+    (hr : RangeOk ((l.map (·.2)).foldl (accStep encVal id) (openAcc id names u)).sl) :
+    let d := Proxy.deriveAmid h r (l.map fun x => (x.1, keyOf encVal [id] (openProxy base σ tm u) x.2))
+    let a := (l.map (·.2)).foldl (accStep encVal id) (openAcc id names u)
+    ∃ q, objQuery d.1 d.2 = some q ∧
+      serveQuery cmpVal encVal litVal bk id names rows q
+        = some (refEval cmpVal names
+            ⟨rcs0 ++ (l.map (·.2)).flatMap opRcs, .table (if a.sub then a.vis else names), rangeList a.sl⟩ rows) := by
+  have hst : ∀ v ch r, encVal v = ch :: r → ch ≠ '=' ∧ ch ≠ '~' := by
+    intro v ch r e
+    obtain ⟨c, r', e', hc⟩ := encVal_head v
+    rw [e] at e'
+    simp only [List.cons.injEq] at e'
+    obtain ⟨rfl, _⟩ := e'
+    rcases hc with rfl | rfl | hd
+    · exact ⟨by decide, by decide⟩
+    · exact ⟨by decide, by decide⟩
+    · constructor <;> (intro e2; subst e2; exact absurd hd (by decide))
+  exact C04_operators cmpVal encVal litVal litVal_encVal id (encVal_head_ne id hidc) hst names hnd hnn hid hidok hnames
+    rows hrows hlen bk u rcs0 hu h w r base σ tm hs l hops hr
 
 end Operators
 
@@ -325,6 +353,50 @@ example : (∃ c r, (['s'] : Name) = c :: r ∧ c.isAlpha = true)
 
 example : CE.parseClause (CE.renderClause ⟨['s', '.', 'i'], .le, ['-', '1']⟩) = some ⟨['s', '.', 'i'], .le, ['-', '1']⟩ := by
   decide
+
+/-! the hypotheses of `C04_operators_val` hold for a heap opened by `open_url`, a chain with interleaved reads,
+    and the text that chain writes (`s[0:1:5].t,s.i&s.t="a"&s.i>=s.f`) is answered with the reference rows -/
+section OperatorsExample
+open Pydap.SeqClient
+def opHeap : Proxy.Heap := Proxy.openHeap ['u'] [] (some 7) ['s'] exNames [(['a'], [3], false)]
+def opUrl : UrlCE := ⟨none, []⟩
+/-- `seq[(seq.t == "a") & (seq.i >= seq.f)]`, (the opened sequence is read), `[["t","i"]]`, `[0:6]` -/
+def opChain : List (List Proxy.Ev × COp Val) :=
+  [([], .filt ⟨['t'], .eq, .val (.str ['a'])⟩ [⟨['i'], .ge, .col ['f']⟩]),
+   ([.iter 0, .aget 1 [Idx.sl ⟨some 1, none, none⟩]], .cols [['t'], ['i']]),
+   ([], .sl ⟨some 0, some 6, none⟩)]
+
+example : Proxy.WF opHeap := by
+  intro p hp
+  simp [opHeap, Proxy.openHeap] at hp
+  subst hp
+  decide
+example : Proxy.specAt opHeap 0 = some (Proxy.specOf (openTmpl ['s'] exNames opUrl) (openProxy ['u'] (some 7) 0 opUrl)) := by
+  decide
+example : NameOk ['s'] ∧ (∀ k ∈ exNames, NameOk k) := by
+  refine ⟨⟨by decide, by decide⟩, ?_⟩
+  intro k hk
+  simp [exNames] at hk
+  rcases hk with rfl | rfl | rfl <;> exact ⟨by decide, by decide⟩
+example : UrlOk litVal ['s'] exNames opUrl [] := ⟨⟨by simp [opUrl], [], rfl, rfl⟩, by simp [opUrl]⟩
+example : ∀ x ∈ opChain, OpOk encVal (openTmpl ['s'] exNames opUrl).keys x.2 := by
+  intro x hx
+  simp [opChain] at hx
+  rcases hx with rfl | rfl | rfl
+  · intro c hc
+    simp at hc
+    rcases hc with rfl | rfl
+    · exact ⟨by decide, by decide⟩
+    · exact ⟨by decide, by decide⟩
+  · exact ⟨by decide, by decide, by decide⟩
+  · trivial
+example : RangeOk ((opChain.map (·.2)).foldl (accStep encVal ['s']) (openAcc ['s'] exNames opUrl)).sl := by
+  right
+  exact ⟨0, 6, 1, by decide, by decide, by decide, by decide⟩
+example : (answers · [.row [.str ['a'], .num 16], .row [.str ['a'], .num 48]]) <$>
+    (serveQuery cmpVal encVal litVal .csv ['s'] exNames exRows "s[0:1:5].t,s.i&s.t=\"a\"&s.i>=s.f".toList) = some true := by
+  decide
+end OperatorsExample
 
 end NonVacuity
 
